@@ -20,6 +20,19 @@ Oracles (the property itself, on the implementation's output):
  * mirror without warp: coordinate + original = lo + hi on the mirror axis, the other axes and everything else
    unchanged, mesh faces re-wound, mirroring twice gives the input back;
  * VoxelNeuron (oracle only): grid shape kept, offset / voxel size follow the transformed bounding box.
+
+Second pass (modules `harness/c16_image.py`, `harness/c16_ext.py`, run first):
+ (c) the IMAGE path: VoxelNeurons with bright blocks through one map given as a single affine / a sequence of non-commuting
+     members / `xform_brain` along a bridging path; every voxel decided by the Lean checkers `imageOK` (pull-back through
+     the reversed inverses) and `landsOK` (forward only); identity controls; NeuronLists (cache re-use); tolerance stream.
+ (d) raw arrays of every dtype / layout; neurons without connectors under 10^k and exact 1/10^k scalings;
+     `xform_brain` on every input kind (routes, `via` / `avoid`, `_navis_units`, alias edges); `mirror_brain(via=…)`;
+     `symmetrize_brain` with every bounding-box layout, `symmetrical` templates, `via`; `affine_fallback` / `caching`;
+     Dotprops with warm (already computed) tangents: after every operation they must be the ones recomputed from the
+     moved points.
+ (e) translator `translator/gen_xformfacts.py` -> `Gen/XformFacts.lean`: theorems of Props/C16 §10 are re-checked against
+     what the current source says (`__neg__` order, copy in `TransformSequence.xform`, stack / slice expressions, scale
+     rules, flip matrix, re-winding branches, interpolation order, pull-back through `-transform`).
 """
 import re, json, hashlib, warnings, copy, itertools
 from fractions import Fraction
@@ -92,6 +105,9 @@ def build_step(st):
         return AffineTransform(m)
     if st[0] == 'Q':
         return FunctionTransform(quad_func(*st[1]))
+    if st[0] == 'D':      # exact division by an integer (e.g. nm -> um): every coordinate is a multiple of it
+        k = float(st[1])
+        return FunctionTransform(lambda p, k=k: np.asarray(p, dtype=float) / k)
     raise ValueError(st)
 
 
@@ -101,16 +117,23 @@ def build_transform(steps, wrap):
         return trs[0]
     if wrap == 'list':
         return trs
+    if wrap == 'ndarray':      # `isinstance(transform, (list, np.ndarray))`
+        a = np.empty(len(trs), dtype=object)
+        a[:] = trs
+        return a
     return TransformSequence(*trs)
 
 
 def f_payload(steps):
     out = []
     for st in steps:
-        if st[0] in ('A', 'Q'):
+        if st[0] in ('A', 'Q', 'I'):
             out.append(f'{st[0]}:' + ','.join(rt(fr(v)) for v in st[1]))
         elif st[0] == 'M':
             out.append(f'M:{st[1]},{rt(fr(st[2]))}')
+        elif st[0] == 'D':
+            k = int(st[1])
+            out.append(f'A:1/{k},0,0,0,0,1/{k},0,0,0,0,1/{k},0')
     return ';'.join(out)
 
 
@@ -118,10 +141,14 @@ def apply_steps_exact(steps, p):
     """Exact rational evaluation of the row function (used only for tables / arrays diagnostics)."""
     x, y, z = p
     for st in steps:
-        if st[0] == 'A':
+        if st[0] in ('A', 'I'):
             a = [fr(v) for v in st[1]]
+            if st[0] == 'I':
+                a = IMG.inv12(a)
             x, y, z = (a[0] * x + a[1] * y + a[2] * z + a[3], a[4] * x + a[5] * y + a[6] * z + a[7],
                        a[8] * x + a[9] * y + a[10] * z + a[11])
+        elif st[0] == 'D':
+            x, y, z = x / int(st[1]), y / int(st[1]), z / int(st[1])
         elif st[0] == 'Q':
             a, b, c = [fr(v) for v in st[1]]
             x, y, z = x + a * y * z, y + b * z * z, c * z
@@ -210,6 +237,10 @@ def make_obj(spec):
         cn = make_conns(spec, with_node_id=False)
         if cn is not None:
             n.connectors = cn
+        if spec.get('warm'):
+            # tangents / alpha of a Dotprops with `k` are computed lazily: a neuron whose `.vect` was read before the
+            # transform carries them, and they must not survive it (they belong to the old coordinates)
+            _ = n.vect, n.alpha
         return n
     if t == 'list':
         return navis.NeuronList([make_obj(s) for s in spec['items']])
@@ -228,6 +259,8 @@ def make_obj(spec):
             elif c == 'w':
                 d[c] = np.array([i / 4 for i in range(len(rows))], dtype=float)
         return pd.DataFrame(d, index=spec.get('index') or None)
+    if t == 'conndf':
+        return make_conns(spec, with_node_id=spec.get('with_node_id', True))
     if t == 'array':
         a = np.array(spec['rows'], dtype=(np.int64 if spec.get('int_xyz') else float)).reshape(-1, 3)
         return a.tolist() if spec.get('as_list') else a
@@ -239,10 +272,12 @@ def make_obj(spec):
         return tm.Trimesh(np.array(spec['verts'], dtype=float).reshape(-1, 3),
                           np.array(spec['faces'], dtype=np.int64).reshape(-1, 3), process=False)
     if t == 'voxel':
-        g = np.zeros(spec['shape'], dtype=np.float32)
-        for (i, j, k, v) in spec['vox']:
+        g = np.zeros(spec['shape'], dtype=np.dtype(spec.get('dtype', 'float32')))
+        for (i0, i1, j0, j1, k0, k1, v) in spec.get('blocks', []):
+            g[i0:i1, j0:j1, k0:k1] = v
+        for (i, j, k, v) in spec.get('vox', []):
             g[i, j, k] = v
-        return navis.VoxelNeuron(g, units=spec.get('units', '1 um'), offset=tuple(spec['offset']),
+        return navis.VoxelNeuron(g, units=spec.get('units', '1 um'), offset=np.array(spec['offset'], dtype=float),
                                  name=spec.get('name', 'vx'), id=spec.get('id', 3))
     raise ValueError(t)
 
@@ -281,6 +316,25 @@ def units_frac(u):
     return None
 
 
+_META = {'units_dim': True}
+
+
+class NoUnitsDim:
+    """`xform_brain` may REPLACE the units by the target template's `_navis_units` (e.g. dimensionless -> micrometer):
+    while such an override applies the dimensionality of the units is not part of the meta data that must survive."""
+
+    def __init__(self, active=True):
+        self.active = active
+
+    def __enter__(self):
+        self.old = _META['units_dim']
+        if self.active:
+            _META['units_dim'] = False
+
+    def __exit__(self, *a):
+        _META['units_dim'] = self.old
+
+
 def meta_of(n):
     """Everything that is not a modelled field: must come back identical."""
     m = {'class': type(n).__name__, 'name': getattr(n, 'name', None), 'id': str(getattr(n, 'id', None))}
@@ -305,7 +359,7 @@ def meta_of(n):
     u = getattr(n, 'units', None)
     if units_frac(u) is None:
         m['units_raw'] = str(u)
-    else:
+    elif _META['units_dim']:
         try:
             m['units_dim'] = str(u.dimensionality)
         except Exception:
@@ -441,11 +495,13 @@ def coord_arrays(x):
 class GuessRecorder:
     def __enter__(self):
         self.rec = []
+        self.means = []
         self.orig = xfm_funcs._guess_change
 
         def wrapper(*a, **k):
             r = self.orig(*a, **k)
             self.rec.append(int(r[1]))
+            self.means.append(float(r[0]))
             return r
         xfm_funcs._guess_change = wrapper
         return self
@@ -474,8 +530,29 @@ def all_rows_coincide(d):
     return len(rows) >= 2 and len(set(rows)) == 1
 
 
+def uniform_scale(steps):
+    """exact factor c if every step multiplies all distances by the same factor (c·I + t, or division by an integer)"""
+    c = Fraction(1)
+    for st in steps:
+        if st[0] == 'D':
+            c /= int(st[1])
+        elif st[0] == 'A':
+            a = st[1]
+            if not (a[5] == a[0] and a[10] == a[0] and a[0] != 0 and all(a[i] == 0 for i in (1, 2, 4, 6, 8, 9))):
+                return None
+            c *= abs(fr(a[0]))
+        else:
+            return None
+    return c
+
+
 def pure_pow10(steps):
     """k if the whole transform is `10^k · I + t` with k ≠ 0 (single affine step), else None."""
+    if len(steps) == 1 and steps[0][0] == 'D':
+        for k in range(1, 7):
+            if int(steps[0][1]) == 10 ** k:
+                return -k
+        return None
     if len(steps) != 1 or steps[0][0] != 'A':
         return None
     a = steps[0][1]
@@ -491,7 +568,9 @@ def pure_pow10(steps):
 # ---------------------------------------------------------------------------------------------
 # the xform case on one neuron (shared by single neurons and list members)
 # ---------------------------------------------------------------------------------------------
-def check_xformed(ctx, case, steps, n_in, d_in, n_out, m, tag):
+def check_xformed(ctx, case, steps, n_in, d_in, n_out, m, tag, edges=None):
+    """`edges` (protocol token `E`) = the bridging path of an `xform_brain` call: the Lean side then applies the
+    `_navis_units` override of the last non-alias template (`xformBrainNeuron` / `checkXformBrain`)."""
     F = f_payload(steps)
     if type(n_out) is not type(n_in):
         ctx.oracle(False, f'{tag}: xform returned {type(n_out).__name__} for a {type(n_in).__name__}', case)
@@ -501,7 +580,10 @@ def check_xformed(ctx, case, steps, n_in, d_in, n_out, m, tag):
     except Exception as e:
         ctx.oracle(False, f'{tag}: result of xform is not a readable neuron: {type(e).__name__}: {str(e)[:120]}', case)
         return
-    model = ctx.ask(f'c16.xform {F} | {m} | {n_line(d_in)}')
+    if edges is None:
+        model = ctx.ask(f'c16.xform {F} | {m} | {n_line(d_in)}')
+    else:
+        model = ctx.ask(f'c16.xformb {F} | {m} | {edges} | {n_line(d_in)}')
     if model == 'RAISES' or model == 'BAD-OP':
         ctx.corr('returned a neuron', model, f'{tag}: model says xform raises', case)
         return
@@ -520,12 +602,16 @@ def check_xformed(ctx, case, steps, n_in, d_in, n_out, m, tag):
     else:
         ctx.corr(d_out['vect'], mo.get('vect'), f'{tag}: xform field `vect`', case)
     # property decided by verified code on navis' own output
-    chk = ctx.ask(f'c16.check {F} | {m} | {EPS_TOK} | {n_line(d_in)} | {n_line(d_out)}')
+    if edges is None:
+        chk = ctx.ask(f'c16.check {F} | {m} | {EPS_TOK} | {n_line(d_in)} | {n_line(d_out)}')
+    else:
+        chk = ctx.ask(f'c16.checkb {F} | {m} | {EPS_TOK} | {edges} | {n_line(d_in)} | {n_line(d_out)}')
     if chk != 'ok=1':
-        what = explain(steps, d_in, d_out, m)
+        what = explain(steps, d_in, d_out, m, override=(None if edges is None else ctx.ask(f'c16.bunits {edges}')))
         ctx.oracle(False, f'{tag}: {what}', case)
     else:
         ctx.oracle(True, '', case)
+    fresh_tangents_oracle(ctx, case, n_out, tag, 'xform')
     # tangents stay unit vectors (regenerated ones too)
     if isinstance(n_out, navis.Dotprops):
         try:
@@ -537,7 +623,25 @@ def check_xformed(ctx, case, steps, n_in, d_in, n_out, m, tag):
             ctx.oracle(False, f'{tag}: Dotprops tangents unavailable after xform: {type(e).__name__}: {str(e)[:100]}', case)
 
 
-def explain(steps, d_in, d_out, m):
+def fresh_tangents_oracle(ctx, case, n_out, tag, what):
+    """Dotprops WITH `k`: the tangents the result reports must be the ones recomputed from its (moved) points — not the
+    tangents of the old coordinates.  Same routine, same points: deterministic, compared up to sign."""
+    if not isinstance(n_out, navis.Dotprops) or n_out.k is None or n_out.k <= 0 or len(n_out.points) < 2:
+        return
+    try:
+        ref = navis.Dotprops(np.array(n_out.points, dtype=float), k=int(n_out.k))
+        v, w = np.asarray(n_out.vect, dtype=float), np.asarray(ref.vect, dtype=float)
+        ok = v.shape == w.shape and bool(np.all(np.abs(np.abs(np.sum(v * w, axis=1)) - 1) < 1e-9))
+        a, b = np.asarray(n_out.alpha, dtype=float), np.asarray(ref.alpha, dtype=float)
+        ok = ok and a.shape == b.shape and bool(np.allclose(a, b, atol=1e-9, equal_nan=True))
+    except Exception as e:
+        ctx.oracle(False, f'{tag}: tangents of a Dotprops with k unavailable after {what}: {type(e).__name__}: {str(e)[:80]}', case)
+        return
+    ctx.oracle(ok, f'{tag}: after {what} the tangents / alpha of a Dotprops with k are not the ones recomputed from the moved '
+                   f'points (stale tangents of the old coordinates)', case)
+
+
+def explain(steps, d_in, d_out, m, override=None):
     """Human-readable reason when the Lean checker rejects navis' output."""
     def coords(tok):
         return [tuple(Fraction(v) for v in r.split(',')[:3]) for r in tok.split(';') if r]
@@ -567,6 +671,11 @@ def explain(steps, d_in, d_out, m):
     if d_in['k'] != d_out['k']:
         msgs.append('k changed')
     for k, nm in (('rad', 'radius'), ('units', 'units'), ('soma', 'soma_radius')):
+        if k == 'units' and override not in (None, '-'):
+            if d_out[k] == '-' or abs(Fraction(d_out[k]) - Fraction(override)) > EPS * max(1, abs(Fraction(override))):
+                msgs.append(f'units are not the `_navis_units` of the last non-alias template of the path '
+                            f'(magnitude {d_out[k]}, template says {override})')
+            continue
         if d_in[k] != '-' and d_out[k] != '-':
             a = d_in[k].split(','); b = d_out[k].split(',')
             f = Fraction(10) ** m
@@ -595,7 +704,7 @@ def run_xform(ctx, case):
                             f"/conns={'none' if s.get('conns') is None else ('empty' if not s['conns'] else 'some')}")
     try:
         with GuessRecorder() as g:
-            out = navis.xform(x, tr)
+            out = navis.xform(x, tr, **case.get('opts', {}))
     except Exception as e:
         # does the model also say the code raises?
         ms = [ctx.ask(f'c16.xform {f_payload(steps)} | 0 | {n_line(d)}') for d in d_ins]
@@ -623,11 +732,22 @@ def run_xform(ctx, case):
         if isinstance(x, navis.NeuronList) and not isinstance(out, navis.NeuronList):
             ctx.count('note', 'xform(NeuronList of 1) returns a bare neuron')
     ms = list(g.rec)
+    means = list(g.means)
     k10 = pure_pow10(steps)
+    cu = uniform_scale(steps)
     for i, (n_in, d_in, n_out, nr) in enumerate(zip(members, d_ins, outs, rows)):
-        m = ms.pop(0) if (nr > 1 and ms) else 0
+        has_guess = nr > 1 and bool(ms)
+        m = ms.pop(0) if has_guess else 0
+        mean = means.pop(0) if has_guess and means else None
         ctx.count('magnitude', m)
         tag = f'{type(n_in).__name__}[{i}]'
+        if mean is not None and np.isfinite(mean) and mean > 0 and not all_rows_coincide(d_in):
+            # `round(math.log10(mean))` against the Lean definition (no logarithm: 10^(2m-1) <= mean^2 < 10^(2m+1))
+            ctx.corr(str(m), ctx.ask(f'c16.mag {rt(fr(mean))}'), f'{tag}: magnitude = round(log10(mean change)) (Lean roundLog10)', case)
+            if cu is not None and len({tuple(r.split(',')[:3]) for tok in (d_in['pts'], d_in['conns']) if tok != '-' for r in tok.split(';') if r}) > 1:
+                ctx.count('uniform_scale_magnitude', ctx.ask(f'c16.mag {rt(cu)}'))
+                ctx.corr(str(m), ctx.ask(f'c16.mag {rt(cu)}'),
+                         f'{tag}: every distance is multiplied by {float(cu)}: detected magnitude vs Lean guessUniform', case)
         if all_rows_coincide(d_in):
             ctx.count('coincident_rows', m)
             ctx.oracle(m == 0, f'{tag}: all coordinate rows coincide (no distance to compare) but the detected magnitude is {m}', case)
@@ -652,6 +772,8 @@ def check_table_like(ctx, case, x, out, F, what, mirror=False):
     """Compare a DataFrame / array / Trimesh result with the model; `F` = protocol transform."""
     spec = case['obj']
     t = spec['type']
+    if t == 'conndf':
+        t = 'df'
     if t == 'df':
         if not isinstance(out, pd.DataFrame):
             ctx.oracle(False, f'{what}(DataFrame) returned {type(out).__name__}', case)
@@ -666,7 +788,8 @@ def check_table_like(ctx, case, x, out, F, what, mirror=False):
             ctx.corr(rows_tok(rout), model, f'{what}(DataFrame): x/y/z moved by the transform, every other column unchanged', case)
             same_other = all(str(out[c].dtype) == str(x[c].dtype) and list(out[c]) == list(x[c]) for c in cols_in)
             want = [apply_steps_exact(case['_steps'], r[:3]) for r in rin]
-            ctx.oracle(same_other and [r[:3] for r in rout] == want,
+            lean_ok = ctx.ask(f'c16.checkt {F} | {rows_tok(rin)} | {rows_tok(rout)}') == 'ok=1' if (rin or rout) else True
+            ctx.oracle(lean_ok and same_other and [r[:3] for r in rout] == want,
                        f'{what}(DataFrame): ' + ('other columns changed' if not same_other else
                                                  f'coordinates are not the transform of the raw coordinates (got {[tuple(map(float, r[:3])) for r in rout[:3]]}, want {[tuple(map(float, w)) for w in want[:3]]})'), case)
     elif t == 'array':
@@ -679,7 +802,8 @@ def check_table_like(ctx, case, x, out, F, what, mirror=False):
             return
         ctx.corr(rows_tok([r + ('_',) for r in rout]), model, f'{what}(array) rows', case)
         want = [apply_steps_exact(case['_steps'], r) for r in rin]
-        ctx.oracle(isinstance(out, np.ndarray) and rout == want,
+        lean_ok = ctx.ask(f"c16.checkt {F} | {rows_tok([r + ('_',) for r in rin])} | {rows_tok([r + ('_',) for r in rout])}") == 'ok=1'
+        ctx.oracle(lean_ok and isinstance(out, np.ndarray) and rout == want,
                    f'{what}(array): result is not the transform of the rows (got {[tuple(map(float, r)) for r in rout[:3]]}, want {[tuple(map(float, w)) for w in want[:3]]})', case)
     else:  # volume / trimesh
         if type(out) is not type(x):
@@ -697,7 +821,11 @@ def check_table_like(ctx, case, x, out, F, what, mirror=False):
         ctx.corr(pts_tok(arr_rows(out.vertices)), mv.strip(), f'{what}({t}) vertices', case)
         ctx.corr(fout, mf.strip(), f'{what}({t}) faces' + (' re-wound' if mirror else ' unchanged'), case)
         want = [apply_steps_exact(case['_steps'], r) for r in rin]
-        ok_v = arr_rows(out.vertices) == want
+        if mirror:
+            lean_ok = ctx.ask(f'c16.checkmesh {F} | {pts_tok(rin)} | {fin} | {pts_tok(arr_rows(out.vertices))} | {fout}') == 'ok=1'
+        else:
+            lean_ok = ctx.ask(f"c16.checkt {F} | {rows_tok([r + ('_',) for r in rin])} | {rows_tok([r + ('_',) for r in arr_rows(out.vertices)])}") == 'ok=1'
+        ok_v = arr_rows(out.vertices) == want and lean_ok
         wantf = np.asarray(x.faces)[:, ::-1] if mirror else np.asarray(x.faces)
         ok_f = np.array_equal(np.asarray(out.faces), wantf)
         ok_m = all(str(getattr(out, a, None)) == str(getattr(x, a, None)) for a in ('name', 'id', 'color')) if t == 'volume' else True
@@ -715,7 +843,7 @@ def run_table(ctx, case):
     before = snap(x)
     ctx.count('table_obj', spec['type'] + ('/int' if spec.get('int_xyz') else ''))
     try:
-        out = navis.xform(x, tr)
+        out = navis.xform(x, tr, **case.get('opts', {}))
     except Exception as e:
         ctx.count('impl_error', type(e).__name__)
         ctx.oracle(False, f'navis.xform raises {type(e).__name__}: {str(e)[:160]} on a valid {spec["type"]}', case)
@@ -829,10 +957,10 @@ def run_mirror(ctx, case):
             return
     ctx.oracle(before == snap(x), f'mirror_brain modified its input ({spec["type"]})', case)
     what = 'mirror' if case.get('low_level') else 'mirror_brain'
-    if spec['type'] in ('df', 'array', 'volume', 'trimesh'):
+    if spec['type'] in ('df', 'conndf', 'array', 'volume', 'trimesh'):
         check_table_like(ctx, case, x, out, F, what, mirror=True)
         if out2 is not None:
-            if spec['type'] == 'df':
+            if spec['type'] in ('df', 'conndf'):
                 back = table_rows(out2) == table_rows(x)
             elif spec['type'] == 'array':
                 back = arr_rows(out2) == arr_rows(x)
@@ -871,7 +999,10 @@ def run_mirror(ctx, case):
             ctx.corr(d_out['vect'], mo.get('vect'), f'{tag}: {what} field `vect`', case)
         # property oracles, python side, straight from the statement
         msgs = mirror_violations(steps, d_in, d_out)
-        ctx.oracle(not msgs, f'{tag}: {what}: ' + '; '.join(msgs), case)
+        # decided by verified code on navis' own output (Lean `checkMirror`, sound by Props/C16.checkMirror_sound)
+        chk = ctx.ask(f'c16.checkm {F} | {EPS_TOK} | {n_line(d_in)} | {n_line(d_out)}')
+        ctx.oracle(chk == 'ok=1' and not msgs, f'{tag}: {what}: ' + ('; '.join(msgs) or 'Lean checkMirror rejects navis\' result (tangents / alpha / scaled columns differ from the model)'), case)
+        fresh_tangents_oracle(ctx, case, n_out, tag, what)
         if isinstance(n_out, navis.Dotprops):
             try:
                 v = np.asarray(n_out.vect, dtype=float)
@@ -938,24 +1069,45 @@ def run_symm(ctx, case):
             ctx.count('impl_error', type(e).__name__)
             ctx.oracle(False, f'symmetrize_brain raises {type(e).__name__}: {str(e)[:160]} on a valid {spec["type"]}', case)
             return
+    check_symm(ctx, case, x, before, out, t['lo'][0], t['hi'][0], g, g0)
+
+
+def check_symm(ctx, case, x, before, out, lo, hi, g, g0):
+    """`lo`, `hi`: the x-extent the midplane is computed from; `g` = mirror with warp, `g0` = plain flip back."""
+    spec = case['obj']
     ctx.oracle(before == snap(x), f'symmetrize_brain modified its input ({spec["type"]})', case)
 
     def model(pts):
         if not pts:
             return ''
-        return ctx.ask(f"c16.symm {rt(fr(t['lo'][0]))},{rt(fr(t['hi'][0]))} | {f_payload(g)} | {f_payload(g0)} | {pts_tok(pts)}")
+        return ctx.ask(f"c16.symm {rt(fr(lo))},{rt(fr(hi))} | {f_payload(g)} | {f_payload(g0)} | {pts_tok(pts)}")
 
     if spec['type'] == 'array':
         ctx.corr(pts_tok(arr_rows(out)), model(arr_rows(x)), 'symmetrize_brain(array) rows', case)
         return
-    if spec['type'] == 'df':
+    if spec['type'] in ('df', 'conndf'):
         rin, rout = table_rows(x), table_rows(out)
         ctx.corr(pts_tok([r[:3] for r in rout]), model([r[:3] for r in rin]), 'symmetrize_brain(DataFrame) x/y/z', case)
         ctx.oracle([r[3] for r in rin] == [r[3] for r in rout] and list(out.columns) == list(x.columns),
                    'symmetrize_brain(DataFrame) changed other columns', case)
         return
+    if isinstance(x, navis.NeuronList):
+        outs = list(out) if isinstance(out, navis.NeuronList) else [out]
+        if len(outs) != len(x):
+            ctx.oracle(False, f'symmetrize_brain(NeuronList of {len(x)}) returned {len(outs)} neurons', case)
+            return
+        for i, (a, b) in enumerate(zip(x, outs)):
+            sub = dict(case, obj=spec['items'][i])
+            check_symm(ctx, sub, a, snap(a), b, lo, hi, g, g0)
+        return
     if type(out) is not type(x):
         ctx.oracle(False, f'symmetrize_brain returned {type(out).__name__} for {type(x).__name__}', case)
+        return
+    if spec['type'] in ('volume', 'trimesh'):
+        ctx.corr(pts_tok(arr_rows(out.vertices)), model(arr_rows(x.vertices)), f"symmetrize_brain({spec['type']}) vertices", case)
+        ok_f = np.array_equal(np.asarray(out.faces), np.asarray(x.faces))
+        ok_m = all(str(getattr(out, a, None)) == str(getattr(x, a, None)) for a in ('name', 'id', 'color')) if spec['type'] == 'volume' else True
+        ctx.oracle(ok_f and ok_m, f"symmetrize_brain({spec['type']}): " + ('faces changed (two flips cancel: no re-winding)' if not ok_f else 'name / id / color changed'), case)
         return
     d_in, d_out = extract(x), extract(out)
 
@@ -965,7 +1117,7 @@ def run_symm(ctx, case):
     def rest(tok):
         return [r.split(',')[3] for r in tok.split(';') if r]
     helper_path = d_in['kind'] == 'd' and (d_in['k'] == '-' or int(d_in['k']) <= 0)
-    mline = ctx.ask(f"c16.symmn {rt(fr(t['lo'][0]))},{rt(fr(t['hi'][0]))} | {f_payload(g)} | {f_payload(g0)} | {n_line(d_in)}")
+    mline = ctx.ask(f"c16.symmn {rt(fr(lo))},{rt(fr(hi))} | {f_payload(g)} | {f_payload(g0)} | {n_line(d_in)}")
     if mline in ('RAISES', 'BAD-OP'):
         ctx.corr('returned a neuron', mline, 'symmetrize_brain: model says it raises', case)
         return
@@ -990,6 +1142,10 @@ def run_symm(ctx, case):
     if d_in['conns'] != '-' and (d_out['conns'] == '-' or rest(d_in['conns']) != rest(d_out['conns'])):
         same.append('other connector columns')
     ctx.oracle(not same, f'symmetrize_brain changed more than coordinates: {same}', case)
+    chk = ctx.ask(f"c16.checks {rt(fr(lo))},{rt(fr(hi))} | {f_payload(g)} | {f_payload(g0)} | {EPS_TOK} | {n_line(d_in)} | {n_line(d_out)}")
+    ctx.oracle(chk == 'ok=1', 'Lean checkSymm rejects navis\' symmetrize_brain result (coordinates / columns / tangents differ from '
+                              'the symmetrized input)', case)
+    fresh_tangents_oracle(ctx, case, out, 'Dotprops', 'symmetrize_brain')
     if isinstance(out, navis.Dotprops):
         try:
             v = np.asarray(out.vect, dtype=float)
@@ -1110,9 +1266,9 @@ def gen_steps(r, scale_stream=False):
         return [['A', [d, 0, 0, t[0], 0, d, 0, t[1], 0, 0, d, t[2]]]], r.choice(['single', 'seq', 'list'])
     u = r.random()
     if u < 0.45:
-        return [gen_affine(r)], r.choice(['single', 'seq', 'list'])
+        return [gen_affine(r)], r.choice(['single', 'seq', 'list', 'ndarray'])
     if u < 0.8:
-        return [gen_affine(r), gen_affine(r)], r.choice(['seq', 'list'])
+        return [gen_affine(r), gen_affine(r)], r.choice(['seq', 'list', 'ndarray'])
     q = ['Q', [r.choice([0, 0.5, -0.25, 1]), r.choice([0, 0.25, -1]), r.choice([1, 2, -1, 0.5])]]
     if u < 0.9:
         return [q], r.choice(['single', 'seq'])
@@ -1188,6 +1344,7 @@ def gen_dots(r, k=None, force_k=None):
             'name': 'dp', 'id': 3}
     if usek:
         spec['k'] = min(n, r.choice([2, 3, 5]))
+        spec['warm'] = r.random() < 0.6
     else:
         spec['k'] = None
         vs = [[1, 0, 0], [0, 1, 0], [0, 0, -1], [1, 2, 2], [3, 4, 0], [-2, 3, 6], [1, 1, 1], [0, -3, 4]]
@@ -1208,6 +1365,9 @@ def gen_neuron(r, **kw):
 
 def gen_tablelike(r):
     u = r.random()
+    if u < 0.08:     # a connector-like DataFrame (connector_id / node_id / type / x / y / z / extra)
+        return {'type': 'conndf', 'conns': gen_conns(r, list(range(5)), allow_empty=False) or [[1, 0, 0, 1.0, 2.0, 3.0, 'a']],
+                'with_node_id': r.random() < 0.7}
     rows = [[q4(r), q4(r), q4(r)] for _ in range(r.choice([0, 1, 2, 3, 5, 9]))]
     if u < 0.35:
         isint = r.random() < 0.3
@@ -1350,6 +1510,17 @@ def gen_cases(ctx):
 RUNNERS = {'xform': run_xform, 'table': run_table, 'mirror': run_mirror, 'symm': run_symm,
            'intmirror': run_intmirror, 'voxel': run_voxel}
 
+from harness import c16_image as IMG   # noqa: E402  (image path: needs the definitions above)
+from harness import c16_ext as EXT     # noqa: E402  (dtype / xform_brain / mirror-via / symmetrize-ext / options streams)
+RUNNERS.update(IMG.RUNNERS)
+RUNNERS.update(EXT.RUNNERS)
+
+
+def all_cases(ctx):
+    yield from EXT.gen_cases(ctx)
+    yield from IMG.gen_cases(ctx)
+    yield from gen_cases(ctx)
+
 
 def nontrivial(kind, case):
     if kind == 'xform':
@@ -1358,7 +1529,7 @@ def nontrivial(kind, case):
         return any(len(s.get('nodes', s.get('verts', s.get('points', [])))) >= 2 for s in items)
     if kind in ('table', 'mirror', 'symm'):
         o = case['obj']
-        return bool(o.get('rows') or o.get('verts') or o.get('nodes') or o.get('points') or o.get('items'))
+        return bool(o.get('rows') or o.get('verts') or o.get('nodes') or o.get('points') or o.get('items') or o.get('conns'))
     return True
 
 
@@ -1372,6 +1543,13 @@ def run(ctx):
         'Volume, Trimesh. mirror cases: object + template bounding box (3x2, 2x3, flat, tuple) + axis + warp mode '
         '(False / auto without registration / auto or True with a registered affine mirror registration / explicit '
         'transform), template by label or object, low-level `mirror`. symmetrize / integer-dtype (int arrays, all-int DataFrames and connector tables mirrored about non-integer sizes) / coincident-rows / voxel streams. '
+        'image cases: VoxelNeuron spec (shape, bright blocks, offset, per-axis voxel size, dtype) + 2–4 exact affine members '
+        '(power-of-two scalings / flips, dyadic shifts, axis permutations, one power-of-two shear; every numpy inverse '
+        'verified bit-exact at generation) + how the same map is also given (single composed affine, bridging path with '
+        'forward / inverse / alias edges) + identity controls + tolerance mode (non-dyadic scalings, dark borders). '
+        'dtype cases: (dtype, memory layout, entry point). brain cases: object + chain of registrations (directions, alias, '
+        'consistent shortcut, decoys, templates with `_navis_units`) + queries (default / via / avoid / flags). '
+        'mirror-via and symm-ext cases: object + template(s) + bridging chain + warp / mode. '
         'non-trivial = at least two coordinate rows (xform) or a non-empty object; distinct = distinct JSON digest')
     ctx.extra['assumptions'] = [
         'coordinates are dyadic (two fractional bits, |v| ≤ 40), matrices dyadic with small numerators: every transformed '
@@ -1381,9 +1559,14 @@ def run(ctx):
         'radius / units / soma_radius (multiplied by 10**m in floating point) and normalised tangents are compared with '
         'relative tolerance 2^-30 in exact rational arithmetic',
         'k-less Dotprops have ≥ 2 distinct points (sampling_resolution is undefined otherwise)',
-        'VoxelNeuron: oracle on grid shape, offset and voxel size only (resampling is not modelled)',
+        'VoxelNeuron (image stream): resampling IS modelled (tri-linear, constant 0 outside, pull-back through the reversed '
+        'inverses); exact mode compares with ==, tolerance mode with 2^-20 relative in rational arithmetic and dark borders '
+        '(scipy treats a source index outside [0, n-1] by any amount as outside)',
+        'the bounding box of the transformed image is computed from the 8 corners in the model (navis adds edge mid-points, '
+        'which cannot change the min / max under an affine map)',
+        'registries are built from exact dyadic registrations; inverse-registered members have exact dyadic inverses',
     ]
-    for kind, case in gen_cases(ctx):
+    for kind, case in all_cases(ctx):
         c = dict(case, kind=kind)
         ctx.case(c, nontrivial=nontrivial(kind, case), sample_every=97)
         ctx.count('stream', case.get('stream', kind))
@@ -1474,6 +1657,10 @@ def _shrink_obj(o):
                 if o.get('alpha'):
                     o2['alpha'] = o['alpha'][:i] + o['alpha'][i + 1:]
                 out.append(o2)
+    elif t == 'voxel':
+        for i in range(len(o.get('blocks', []))):
+            if len(o['blocks']) > 1:
+                out.append(dict(o, blocks=o['blocks'][:i] + o['blocks'][i + 1:]))
     elif t in ('df', 'array'):
         for i in range(len(o['rows'])):
             if len(o['rows']) > 1:
